@@ -1649,3 +1649,40 @@ def varlen_emit(prog):
     if not obs:
         raise AnalysisBroken('VARLEN-EMIT: no variable-length emission found in asm/')
     return RuleResult('VARLEN-EMIT', obs, 2, {})
+
+
+def fixed_pad(prog, floor=2):
+    """FIXED-PAD (C02): the variable-length emitters that take a `fixed_size` parameter (the padding that keeps a forward
+    reference the same length in both passes) consult it on every path: each return of the function is dominated by a branch
+    whose condition reads fixed_size.  A shortcut for one value (`if (b == 0) { emit 1 byte; return 1; }`) gives pass 1
+    (unknown label = 0) a different length from pass 2."""
+    from nk.cfg import dominators
+    from nk.facts import kids, walk, show
+    from nk.report import Ob, RuleResult, DISCHARGED, VIOLATED
+    from nk.build import AnalysisBroken
+    obs = []
+    for fn in sorted(prog.functions(lambda f: f.file == 'core/add_bin.cpp'), key=lambda f: (f.file, f.line)):
+        ps = [p for p in fn.params() if p.get('n') == 'fixed_size']
+        if not ps or not fn.blocks:
+            continue
+        d = ps[0]['d']
+        tests = {b for b, bb in fn.blocks.items() if 'cond' in bb and fn.nodes.get(bb['cond']) is not None and
+                 any(x['k'] == 'DeclRefExpr' and x.get('d') == d for x in walk(fn.nodes[bb['cond']]))}
+        dom = dominators(fn)
+        k = 0
+        for n in sorted(fn.nodes.values(), key=lambda x: x['i']):
+            if n['k'] != 'ReturnStmt' or not kids(n):
+                continue
+            w = fn.where.get(n['i'])
+            if w is None:
+                continue
+            k += 1
+            ok = bool(tests & set(dom[w[0]]))
+            obs.append(Ob('FIXED-PAD', fn.file, n['l'], fn.q, 'return#%d' % k, DISCHARGED if ok else VIOLATED,
+                          '' if ok else '`return %s` is reached without any test of fixed_size: for this value the emitter ignores the '
+                          'requested fixed length, so a forward reference (0 in pass 1) is shorter in pass 1 than in pass 2' %
+                          show(kids(n)[0])[:30],
+                          'a test of fixed_size dominates the return', True))
+    if len(obs) < floor:
+        raise AnalysisBroken('FIXED-PAD: only %d returns in emitters with a fixed_size parameter' % len(obs))
+    return RuleResult('FIXED-PAD', obs, floor, {})
